@@ -48,8 +48,8 @@ Inductive phdr :=
 
 Inductive upd_out :=
 | UNone                                   (* returns without writing *)
-| UTrap (why : Z)                         (* 1 = division by zero, 2 = updateBuf overflow in rfbSendCopyRegion *)
-| USent (announced : Z) (hdrs : list phdr) (lastmarker : bool) (overflow : bool).
+| UTrap (why : Z)                         (* 1 = division by zero *)
+| USent (announced : Z) (hdrs : list phdr) (lastmarker : bool) (overflow : bool).   (* overflow: always false since e68aae9 *)
 
 (* rfbRedrawAfterHideCursor(cl, updateRegion) *)
 Definition redraw_cursor (cur : option cursor_geom) (cx cy fbw fbh : Z) (upd : region) : region :=
@@ -143,14 +143,11 @@ Definition render_update (c1 : caps) (s : sends) (sn : snap) (pl : plan) : caps 
       let c2 := if s_shape s then set_cursor_changed c1 false else c1 in
       let c3 := if s_pos s then set_cursor_moved c2 false else c2 in
       let ps := map PH (pseudo_hdrs c1 s sn (c_lastled c1)) in
-      (* every pseudo rectangle flushes updateBuf; otherwise only the 4-byte header is there *)
-      let ublen0 := if any_send s then 0 else sz_FramebufferUpdateMsg in
-      let fits := copyregion_fits ublen0 ncopy in
       match region_hdrs pref (emit_region pref (c_lastrect c1) (sn_cmw sn) (sn_cmh sn) region') with
       | None => (c3, UTrap 1)
       | Some rh =>
           let tail := if lm then [PH (0, 0, 0, 0, enc_LastRect)] else [] in
-          (c3, USent n (ps ++ map PH (copy_hdrs (pl_copy pl)) ++ rh ++ tail) lm (negb fits))
+          (c3, USent n (ps ++ map PH (copy_hdrs (pl_copy pl)) ++ rh ++ tail) lm false)
       end
   end.
 
